@@ -146,7 +146,9 @@ func c17(c *Ctx) {
 	R.Floor("C17.remember-on-success", nmu, 1)
 	// the send requires "not in cache"
 	fsS := facts.At(theSend.Instr, nil)
-	notCached := facts.Has(fsS, func(a string) bool { return strings.HasPrefix(a, "!") && strings.Contains(a, "cache") || strings.HasPrefix(a, "!local:cache[") || strings.HasPrefix(a, "!makemap[") })
+	notCached := facts.Has(fsS, func(a string) bool {
+		return strings.HasPrefix(a, "!") && strings.Contains(a, "cache") || strings.HasPrefix(a, "!local:cache[") || strings.HasPrefix(a, "!makemap[")
+	})
 	if !notCached {
 		for _, f := range fsS {
 			if ex, ok := f.Cond.(*ssa.Extract); ok && !f.Pol && ex.Index == 1 {
